@@ -22,7 +22,13 @@ import (
 	"pqsim/tape"
 )
 
-const verifDir = "/verif"
+// verifDir is the root the check runs in: /verif, or a snapshot of it (vp run).
+var verifDir = func() string {
+	if d := os.Getenv("PQSIM_VERIF_DIR"); d != "" {
+		return d
+	}
+	return "/verif"
+}()
 
 func Variant() string {
 	v := "plain"
